@@ -346,6 +346,7 @@ def applyCalls (d : DS) (keys : Array Bytes) (calls : String) : Builder :=
        | none => b)
     | ["seq", n] => b.setSeq (n.toNat?.getD 0)
     | ["raw", k, v] => b.addRaw (unhex k) (unhex v)
+    | ["enc", k, v] => b.addRaw (unhex k) (unhex v)
     | ["bytes", k, v] => b.addValue (unhex k) (.bytes (unhex v))
     | ["uint", k, v] => b.addValue (unhex k) (.uint (v.toNat?.getD 0))
     | ["ip", v] => let ip := unhex v; b.addValue (if ip.length = 4 then kIp else kIp6) (.bytes ip)
@@ -365,6 +366,11 @@ def parseOp (d : DS) (t : Toks) (keys : Array Bytes) : Option (Op d.S) :=
   match g "op" with
   | "set_seq" => some (.setSeq (n "seq"))
   | "insert" =>
+    -- `insert<T>` stores whatever `T::encode` writes: for a hand-written `Encodable` that is an
+    -- arbitrary byte string, i.e. `insert_raw_rlp` of those bytes
+    if g "vt" == "rawenc" then some (.insertRaw (unhex (g "key")) (unhex (g "val")))
+    else if g "vt" == "phantom" then some (.insertRaw (unhex (g "key")) [])
+    else
     let v : Val := match g "vt" with
       | "uint" => .uint (n "val")
       | "strs" => .strs (parseList (g "val"))
@@ -1022,6 +1028,12 @@ def finishPending (s : St) (recs : List Obs) (acc : Option Toks) : St :=
           { s with cur := match rec1 with
                           | some now => some now
                           | none => slot }
+        else if op == "tamperdec" then
+          if tget o "res" == "ok" then s.chk
+          else if tget o "res" == "panic" then s.prop "C03" "decode_no_panic" ""
+          else if tget o "res" == "accepted" then
+            (s.prop "C01" "tampered_copy_of_own_record_rejected" s!"buf={tget o "buf"}").prop "C02" "input_without_a_valid_signature_rejected" s!"buf={tget o "buf"}"
+          else s
         else if op == "setcur" then
           -- the current record is replaced by a decoded one
           let buf := unhex (tget t "buf")
